@@ -1211,7 +1211,16 @@ fn group_by_suffix(
             let chunk = FileChunk::new(&fi.path, fi.len.as_pos() - suffix_len, suffix_len);
             ctx.hasher
                 .hash_file_or_log_err(&chunk, |_| {})
-                .map(|new_hash| old_hash ^ new_hash)
+                // The suffix can be the very bytes the prefix hash was computed from (a file not
+                // longer than both chunk lengths): x ^ x = 0 would make all such files look alike,
+                // and the contents stage does not look at them again.
+                .map(|new_hash| {
+                    if new_hash == old_hash {
+                        old_hash
+                    } else {
+                        old_hash ^ new_hash
+                    }
+                })
         },
     );
 
